@@ -54,9 +54,21 @@ type TLSConfig struct {
 	InsecureSkipVerify bool
 
 	// tlsConfig is the internal Go TLS configuration
-	tlsConfig   *tls.Config
-	mu          sync.RWMutex
-	currentCert atomic.Pointer[tls.Certificate] // atomically updated for concurrent reads
+	tlsConfig *tls.Config
+	mu        sync.RWMutex
+	// currentCert holds the certificate served by GetCertificate. It is shared between a
+	// configuration and its clones, so that ReloadCertificates on the copy returned by
+	// GetExportOptions reaches the listener that was built from the original.
+	currentCert *atomic.Pointer[tls.Certificate]
+}
+
+// certCell returns the shared certificate holder, creating it on first use.
+// Callers must hold tc.mu for writing.
+func (tc *TLSConfig) certCell() *atomic.Pointer[tls.Certificate] {
+	if tc.currentCert == nil {
+		tc.currentCert = new(atomic.Pointer[tls.Certificate])
+	}
+	return tc.currentCert
 }
 
 // DefaultTLSConfig returns a TLS configuration with secure defaults
@@ -154,12 +166,13 @@ func (tc *TLSConfig) BuildConfig() (*tls.Config, error) {
 	}
 
 	// Store cert atomically for concurrent-safe access
-	tc.currentCert.Store(&cert)
+	cell := tc.certCell()
+	cell.Store(&cert)
 
 	// Create base TLS config using GetCertificate callback for hot-reload support
 	config := &tls.Config{
 		GetCertificate: func(*tls.ClientHelloInfo) (*tls.Certificate, error) {
-			return tc.currentCert.Load(), nil
+			return cell.Load(), nil
 		},
 		MinVersion:               tc.MinVersion,
 		MaxVersion:               tc.MaxVersion,
@@ -210,8 +223,8 @@ func (tc *TLSConfig) GetConfig() (*tls.Config, error) {
 // ReloadCertificates reloads the server certificates without changing other settings
 // This is useful for certificate rotation without restarting the server
 func (tc *TLSConfig) ReloadCertificates() error {
-	tc.mu.RLock()
-	defer tc.mu.RUnlock()
+	tc.mu.Lock()
+	defer tc.mu.Unlock()
 
 	if !tc.Enabled {
 		return fmt.Errorf("TLS is not enabled")
@@ -225,7 +238,7 @@ func (tc *TLSConfig) ReloadCertificates() error {
 
 	// Atomically update the certificate - the GetCertificate callback
 	// will pick up the new cert on the next TLS handshake
-	tc.currentCert.Store(&cert)
+	tc.certCell().Store(&cert)
 
 	return nil
 }
@@ -303,10 +316,11 @@ func (tc *TLSConfig) Clone() *TLSConfig {
 	if tc == nil {
 		return nil
 	}
-	tc.mu.RLock()
-	defer tc.mu.RUnlock()
+	tc.mu.Lock()
+	defer tc.mu.Unlock()
 
 	clone := &TLSConfig{
+		currentCert:              tc.certCell(),
 		Enabled:                  tc.Enabled,
 		CertFile:                 tc.CertFile,
 		KeyFile:                  tc.KeyFile,
